@@ -79,6 +79,21 @@ noncomputable def trnVecPose (P : Pose) (v : Vec3) : Vec3 :=
   mju_trnVecPose (α := ℝ) P.1 P.2.1 P.2.2.1 P.2.2.2.1 P.2.2.2.2.1 P.2.2.2.2.2.1 P.2.2.2.2.2.2
     v.1 v.2.1 v.2.2
 
+/-- `mjd_subQuat qa qb` as (Da, Db) -/
+noncomputable def mjdSubQuat (qa qb : Quat) : Mat3 × Mat3 :=
+  let r := mjd_subQuat (α := ℝ) qa.1 qa.2.1 qa.2.2.1 qa.2.2.2 qb.1 qb.2.1 qb.2.2.1 qb.2.2.2
+  ((r.1, r.2.1, r.2.2.1, r.2.2.2.1, r.2.2.2.2.1, r.2.2.2.2.2.1, r.2.2.2.2.2.2.1, r.2.2.2.2.2.2.2.1,
+    r.2.2.2.2.2.2.2.2.1), r.2.2.2.2.2.2.2.2.2)
+/-- `mjd_quatIntegrate vel scale` as (Dquat, Dvel, Dscale) -/
+noncomputable def mjdQuatIntegrate (vel : Vec3) (scale : ℝ) : Mat3 × Mat3 × Vec3 :=
+  let r := mjd_quatIntegrate (α := ℝ) vel.1 vel.2.1 vel.2.2 scale
+  ((r.1, r.2.1, r.2.2.1, r.2.2.2.1, r.2.2.2.2.1, r.2.2.2.2.2.1, r.2.2.2.2.2.2.1, r.2.2.2.2.2.2.2.1,
+    r.2.2.2.2.2.2.2.2.1),
+   (r.2.2.2.2.2.2.2.2.2.1, r.2.2.2.2.2.2.2.2.2.2.1, r.2.2.2.2.2.2.2.2.2.2.2.1, r.2.2.2.2.2.2.2.2.2.2.2.2.1,
+    r.2.2.2.2.2.2.2.2.2.2.2.2.2.1, r.2.2.2.2.2.2.2.2.2.2.2.2.2.2.1, r.2.2.2.2.2.2.2.2.2.2.2.2.2.2.2.1,
+    r.2.2.2.2.2.2.2.2.2.2.2.2.2.2.2.2.1, r.2.2.2.2.2.2.2.2.2.2.2.2.2.2.2.2.2.1),
+   r.2.2.2.2.2.2.2.2.2.2.2.2.2.2.2.2.2.2)
+
 /-! ### mathematical vocabulary -/
 
 def normSq4 (q : Quat) : ℝ := q.1 * q.1 + q.2.1 * q.2.1 + q.2.2.1 * q.2.2.1 + q.2.2.2 * q.2.2.2
@@ -442,6 +457,53 @@ theorem mju_quat2Vel_axisAngle (u0 u1 u2 a : ℝ) (hu : u0*u0 + u1*u1 + u2*u2 = 
     rw [abs_of_pos hpos, abs_of_pos (by linarith : 0 < a * (1/2))]
     simp only [Prod.mk.injEq]
     refine ⟨?_, ?_, ?_⟩ <;> first | (field_simp; done) | (field_simp; ring)
+
+
+/-! ### helper for `mjd_quatIntegrate` -/
+
+/-- entries of `a I + b [s]ₓᵀ + c s sᵀ` (a = cos x, b = sin x / x, c = (1 - cos x)/x², written with the half-angle
+S = sin(x/2), C = cos(x/2)) against the matrix of the conjugate axis-angle quaternion (C, -(s/x) S) -/
+theorem dquat_entries (x s0 s1 s2 S C : ℝ) (hx : x ≠ 0) (hxx : x * x = s0*s0 + s1*s1 + s2*s2)
+    (hsc : S^2 + C^2 = 1) :
+    ((2*C^2 - 1) * 1 + (2*S*C) / x * 0 + (1 - (2*C^2 - 1)) / (s0*s0 + s1*s1 + s2*s2) * (s0*s0),
+     (2*C^2 - 1) * 0 + (2*S*C) / x * s2 + (1 - (2*C^2 - 1)) / (s0*s0 + s1*s1 + s2*s2) * (s0*s1),
+     (2*C^2 - 1) * 0 + (2*S*C) / x * (-s1) + (1 - (2*C^2 - 1)) / (s0*s0 + s1*s1 + s2*s2) * (s0*s2),
+     (2*C^2 - 1) * 0 + (2*S*C) / x * (-s2) + (1 - (2*C^2 - 1)) / (s0*s0 + s1*s1 + s2*s2) * (s1*s0),
+     (2*C^2 - 1) * 1 + (2*S*C) / x * 0 + (1 - (2*C^2 - 1)) / (s0*s0 + s1*s1 + s2*s2) * (s1*s1),
+     (2*C^2 - 1) * 0 + (2*S*C) / x * s0 + (1 - (2*C^2 - 1)) / (s0*s0 + s1*s1 + s2*s2) * (s1*s2),
+     (2*C^2 - 1) * 0 + (2*S*C) / x * s1 + (1 - (2*C^2 - 1)) / (s0*s0 + s1*s1 + s2*s2) * (s2*s0),
+     (2*C^2 - 1) * 0 + (2*S*C) / x * (-s0) + (1 - (2*C^2 - 1)) / (s0*s0 + s1*s1 + s2*s2) * (s2*s1),
+     (2*C^2 - 1) * 1 + (2*S*C) / x * 0 + (1 - (2*C^2 - 1)) / (s0*s0 + s1*s1 + s2*s2) * (s2*s2))
+    = (C*C + (-(s0/x*S))*(-(s0/x*S)) - (-(s1/x*S))*(-(s1/x*S)) - (-(s2/x*S))*(-(s2/x*S)),
+       2 * ((-(s0/x*S))*(-(s1/x*S)) - C*(-(s2/x*S))),
+       2 * ((-(s0/x*S))*(-(s2/x*S)) + C*(-(s1/x*S))),
+       2 * ((-(s0/x*S))*(-(s1/x*S)) + C*(-(s2/x*S))),
+       C*C - (-(s0/x*S))*(-(s0/x*S)) + (-(s1/x*S))*(-(s1/x*S)) - (-(s2/x*S))*(-(s2/x*S)),
+       2 * ((-(s1/x*S))*(-(s2/x*S)) - C*(-(s0/x*S))),
+       2 * ((-(s0/x*S))*(-(s2/x*S)) - C*(-(s1/x*S))),
+       2 * ((-(s1/x*S))*(-(s2/x*S)) + C*(-(s0/x*S))),
+       C*C - (-(s0/x*S))*(-(s0/x*S)) - (-(s1/x*S))*(-(s1/x*S)) + (-(s2/x*S))*(-(s2/x*S))) := by
+  rw [← hxx]
+  simp only [Prod.mk.injEq]
+  refine ⟨?_, ?_, ?_, ?_, ?_, ?_, ?_, ?_, ?_⟩
+  · field_simp
+    linear_combination (-2*s0^2 + x^2) * hsc + (-S^2) * hxx
+  · field_simp
+    linear_combination (-2*s0*s1) * hsc + (0) * hxx
+  · field_simp
+    linear_combination (-2*s0*s2) * hsc + (0) * hxx
+  · field_simp
+    linear_combination (-2*s0*s1) * hsc + (0) * hxx
+  · field_simp
+    linear_combination (-2*s1^2 + x^2) * hsc + (-S^2) * hxx
+  · field_simp
+    linear_combination (-2*s1*s2) * hsc + (0) * hxx
+  · field_simp
+    linear_combination (-2*s0*s2) * hsc + (0) * hxx
+  · field_simp
+    linear_combination (-2*s1*s2) * hsc + (0) * hxx
+  · field_simp
+    linear_combination (-2*s2^2 + x^2) * hsc + (-S^2) * hxx
 
 
 end MjProof.Spatial
